@@ -233,7 +233,7 @@ func genRuleFile(rng *Rng, hostile bool) string {
 }
 
 func pathUniverse() []string {
-	names := []string{"a", "b", "foo", ".git", "x.tf", "a b", ".terraform", "modules", "c-d"}
+	names := []string{"a", "b", "foo", ".git", "x.tf", "a b", ".terraform", "modules", "c-d", "a\nb"}
 	var out []string
 	var rec func(prefix string, depth int)
 	rec = func(prefix string, depth int) {
